@@ -142,6 +142,9 @@ type MismatchTypeError struct {
 
 func swithchJSONType(src string, pos int) string {
 	var val string
+	if pos < 0 || pos >= len(src) {
+		return val
+	}
 	switch src[pos] {
 	case 'f':
 		fallthrough
